@@ -112,6 +112,7 @@ type State struct {
 	notes []string // imprecision notes
 	dead  bool
 	lockSnap *State // state right after the first guarded Lock on this path (for locked(e))
+	snaps    map[string]*State // named snapshots (loop heads for prev(e))
 }
 
 func (s *State) clone() *State {
@@ -132,6 +133,12 @@ func (s *State) clone() *State {
 	n.held = append([]heldLock(nil), s.held...)
 	n.notes = append([]string(nil), s.notes...)
 	n.lockSnap = s.lockSnap
+	if len(s.snaps) > 0 {
+		n.snaps = make(map[string]*State, len(s.snaps))
+		for k, v := range s.snaps {
+			n.snaps[k] = v
+		}
+	}
 	if s.frame != nil {
 		n.frame = s.frame.clone()
 	}
@@ -222,9 +229,12 @@ func valueFacts(v *Value) {
 			leafFacts(l, specs[i])
 		}
 	}
-	if _, ok := under(v.T).(*types.Slice); ok && len(v.L) == 4 && !v.L[2].bound && !v.L[3].bound && opaque(v.L[2]) && opaque(v.L[3]) {
-		addFact(v.L[2], Le(v.L[2], v.L[3]))
-		// off+cap bounded
+	// len <= cap for every slice header inside the value (also inside tuples and structs)
+	for i := 0; i+1 < len(v.L) && i+1 < len(specs); i++ {
+		if specs[i].Kind == "len" && specs[i+1].Kind == "cap" && v.L[i] != nil && v.L[i+1] != nil &&
+			!v.L[i].bound && !v.L[i+1].bound && opaque(v.L[i]) && opaque(v.L[i+1]) {
+			addFact(v.L[i], Le(v.L[i], v.L[i+1]))
+		}
 	}
 }
 
@@ -816,6 +826,14 @@ func tryMerge(a, b *State) *State {
 	n.wm = Ite(ca, a.wm, b.wm)
 	n.held = a.held
 	n.lockSnap = a.lockSnap
+	for k, sa := range a.snaps {
+		if b.snaps[k] == sa {
+			if n.snaps == nil {
+				n.snaps = map[string]*State{}
+			}
+			n.snaps[k] = sa
+		}
+	}
 	seen := map[string]bool{}
 	for _, x := range a.notes {
 		if !seen[x] {
